@@ -451,9 +451,23 @@ fn check_state(u: &Universe, s: &RefState) -> StateOut {
         o.variants += 1;
         match u.read(&st) {
             Ok(r) if &r == s => {}
-            Ok(_) | Err(_) => {
-                o.machinery.push(format!("variant {label} does not denote the same abstract state"));
+            // The variants are built with public store operations whose net effect is `s` (on the
+            // unchanged tree this never fires — every run checks all of them).  If the store then
+            // reads back differently, or is internally inconsistent, the store remembers HOW it
+            // was built: a verdict about the code under test, not about the harness.
+            Ok(other) => {
+                o.viol.push((
+                    format!("construction-order:store-content-differs-after-detour:{label}"),
+                    format!("expected {:?} got {:?}", s.to_json(), other.to_json()),
+                ));
                 continue;
+            }
+            Err(e) => {
+                o.viol.push((
+                    format!("construction-order:store-inconsistent-after-detour:{label}"),
+                    format!("read-back failed: {e}"),
+                ));
+                // the root is still compared below: layout residue must not reach the hash
             }
         }
         if format!("{st:?}") != canonical_dbg {
